@@ -74,6 +74,10 @@ type vpScenario struct {
 	// CreateDelayUS: every interface creation takes this long (requests can be cancelled
 	// while the call is in flight)
 	CreateDelayUS int `json:"create_delay_us,omitempty"`
+	// BalanceOnArrivalUS > 0: whenever a create / assign call has returned successfully, a
+	// few balancer passes follow at this spacing (microseconds): the balancer meets addresses
+	// that have just arrived and that the waiting request has not picked up yet
+	BalanceOnArrivalUS int `json:"balance_on_arrival_us,omitempty"`
 }
 
 const vpPods = 8
@@ -147,7 +151,7 @@ func vpGenCfg(t *rapid.T, mode string) vpCfg {
 
 func vpGenOp(t *rapid.T, mode string) vpOp {
 	// weights per verdict group
-	kinds := []string{"alloc", "alloc", "alloc", "alloc", "release", "release", "syncpool", "sync", "drift", "faults", "clearinhibit", "lateworker"}
+	kinds := []string{"alloc", "alloc", "alloc", "alloc", "alloc", "release", "release", "syncpool", "syncpool", "syncstorm", "sync", "drift", "faults", "clearinhibit", "lateworker", "cancelalloc"}
 	switch mode {
 	case "C06":
 		// C06 quantifies over schedules, histories and configurations - not over cloud
@@ -156,7 +160,7 @@ func vpGenOp(t *rapid.T, mode string) vpOp {
 		// still assigned) are environment events rather than faults of a call; they are drawn
 		// here, rarely, because "never unassigns an address a pod holds" must survive the
 		// periodic sync marking a held address invalid.
-		kinds = []string{"alloc", "alloc", "alloc", "alloc", "alloc", "release", "release", "release", "syncpool", "syncpool", "syncpool", "sync", "sync", "cancelalloc", "glitch", "drift", "lateworker"}
+		kinds = []string{"alloc", "alloc", "alloc", "alloc", "alloc", "release", "release", "release", "syncpool", "syncpool", "syncstorm", "sync", "sync", "cancelalloc", "glitch", "drift", "lateworker"}
 	case "C07":
 		kinds = append(kinds, "faults", "faults", "cancelalloc", "cancelalloc", "syncpool", "cancelledcreate")
 	}
@@ -181,6 +185,9 @@ func vpGenOp(t *rapid.T, mode string) vpOp {
 		o.Pod = rapid.IntRange(0, vpPods-1).Draw(t, "pod")
 		o.A = rapid.IntRange(0, 2000).Draw(t, "retryafter")
 		o.CancelUS = rapid.IntRange(50, 4000).Draw(t, "cancel")
+	case "syncstorm":
+		o.A = rapid.IntRange(0, 7).Draw(t, "ms")
+		o.B = rapid.IntRange(0, 59).Draw(t, "gap")
 	case "sync":
 		o.A = rapid.IntRange(0, 7).Draw(t, "eni")
 	case "drift", "glitch":
@@ -204,6 +211,9 @@ func vpGen(mode string) func(t *rapid.T) vpScenario {
 		}
 		if rapid.IntRange(0, 2).Draw(t, "unassigndelay") == 0 {
 			s.UnassignDelayUS = rapid.IntRange(100, 3000).Draw(t, "unassigndelayus")
+		}
+		if mode != "C07" && rapid.IntRange(0, 2).Draw(t, "balarr") == 0 {
+			s.BalanceOnArrivalUS = rapid.IntRange(1, 40).Draw(t, "balarrus")
 		}
 		if rapid.IntRange(0, 2).Draw(t, "createdelay") == 0 {
 			s.CreateDelayUS = rapid.IntRange(200, 3000).Draw(t, "createdelayus")
@@ -242,6 +252,7 @@ type vpWorld struct {
 
 	opCreateDelayUS atomic.Int64 // delay of the next interface creation (cancelledcreate)
 	stuckWhat       string
+	burst           atomic.Int64 // running balancer bursts started by BalanceOnArrivalUS (a counter, not a WaitGroup: bursts start while the round is being waited for)
 
 	mu       sync.Mutex // ledger lock; order: cloud lock -> ledger lock
 	hold     map[netip.Addr]vpHold
@@ -410,6 +421,24 @@ func vpBuild(c *vt.Ctx, s vpScenario) *vpWorld {
 
 	w.cloud.Hook = w.hook
 	w.cloud.Gate = w.gate
+	if s.BalanceOnArrivalUS > 0 {
+		gap := time.Duration(s.BalanceOnArrivalUS) * time.Microsecond
+		w.cloud.After = func(_ *cloudsim.Cloud, c *cloudsim.Call) {
+			if c.Err || (c.Kind != cloudsim.KCreate && c.Kind != cloudsim.KAssign4 && c.Kind != cloudsim.KAssign6) {
+				return
+			}
+			w.burst.Add(1)
+			go func() {
+				defer w.burst.Add(-1)
+				for i := 0; i < 4 && w.ctx.Err() == nil; i++ {
+					time.Sleep(gap)
+					ctx, cancel := context.WithTimeout(w.ctx, 2*time.Millisecond)
+					w.mgr.syncPool(ctx)
+					cancel()
+				}
+			}()
+		}
+	}
 	if s.LoadDelayUS > 0 {
 		d := time.Duration(s.LoadDelayUS) * time.Microsecond
 		w.cloud.AfterLoad = func() { time.Sleep(d) }
@@ -902,6 +931,17 @@ func (w *vpWorld) doOp(o vpOp) {
 		ctx, cancel := context.WithTimeout(w.ctx, vpAllocTimeout)
 		w.mgr.syncPool(ctx)
 		cancel()
+	case "syncstorm":
+		// the balancer runs back to back for a few milliseconds while the other operations of
+		// the round are in flight: a pass is likely to fall between two steps of a request
+		// (address arrived / picked up, interface created / first address used)
+		deadline := time.Now().Add(time.Duration(2+o.A%4) * time.Millisecond)
+		for time.Now().Before(deadline) {
+			ctx, cancel := context.WithTimeout(w.ctx, 2*time.Millisecond)
+			w.mgr.syncPool(ctx)
+			cancel()
+			time.Sleep(time.Duration(10+o.B%60) * time.Microsecond)
+		}
 	case "sync":
 		w.doSync(w.locals[o.A%len(w.locals)])
 	case "drift":
@@ -1370,6 +1410,9 @@ func vpRunOpt(c *vt.Ctx, s vpScenario, noGuard bool) {
 			}(o)
 		}
 		wg.Wait()
+		for i := 0; i < 20000 && w.burst.Load() > 0; i++ {
+			time.Sleep(50 * time.Microsecond)
+		}
 		w.checkOwners()
 		if s.Mode == "C07" {
 			w.checkInvalidOnlyIfGone()
